@@ -7,6 +7,7 @@ pub mod known;
 pub mod props;
 pub mod qmodel;
 pub mod rich;
+pub mod scoring;
 pub mod simdir;
 pub mod util;
 
